@@ -95,6 +95,22 @@ def Mac(self, x="d", y="d"):
     return made[level["out"]]
 
 
+POOLS: list = []  # executor objects by identity (index), for the sharing patterns of instruction executors
+
+
+def pool_factory(kind, h=None):
+    """the callable of `(pool_factory, (kind, h), {})`: what a user's callable may hand out"""
+    from concurrent.futures import ThreadPoolExecutor
+
+    if kind == "shared":  # the same pool on every call, whatever state it is in
+        return POOLS[h]
+    e = ThreadPoolExecutor(3)
+    if kind == "freshdown":  # e.g. created in a `with` block that has ended
+        e.shutdown()
+    POOLS.append(e)
+    return e
+
+
 def make_executor(key):
     """the callable of an instruction-tuple executor"""
     if key in REGISTRY:
@@ -126,3 +142,9 @@ def reset():
         except Exception:  # noqa: BLE001
             pass
     CREATED.clear()
+    for e in POOLS:
+        try:
+            e.shutdown(wait=False, cancel_futures=True)
+        except Exception:  # noqa: BLE001
+            pass
+    POOLS.clear()
